@@ -4,7 +4,7 @@ from tools import vlib, t3
 from tools.vlib import hx
 
 MODULE = "PropC12"
-THEOREMS = ["C12_code_conforms", "C12_lockset_sound", "C12_discipline_tags", "C12_discipline_ports_and_slots", "C12_only_accessors", "C12_tags_refuted_before_repair"]
+THEOREMS = ["C12_code_conforms", "C12_lockset_sound", "C12_discipline_tags", "C12_discipline_ports_and_slots", "C12_only_accessors", "C12_no_writes_to_package_variables", "C12_tags_refuted_before_repair"]
 
 
 def build(rng, i):
@@ -15,7 +15,17 @@ def build(rng, i):
     for p in paths:
         sp.files[p] = p + "\n"
     s = sp.src("src", paths)
-    kind = i % 4
+    kind = i % 5
+    if kind == 4:
+        # sibling consumers of one source with path modifiers in their output patterns and commands, default names,
+        # parameter feeders: everything task formation touches (formatting helpers, regular expressions) runs concurrently
+        mods = ["%.txt", "basename", "dirname", "s/r/R/", "%.txt|s/r/q/"]
+        for k in range(rng.randint(2, 5)):
+            m = rng.choice(mods)
+            sp.proc(t3.Proc("sib%d" % k, kind=rng.choice(["cat", "cattok"]), ins=[("a", [(s, "out")])],
+                            pars=[("q", ("V", ["v%d" % j for j in range(L)]))] if rng.random() < 0.4 else [],
+                            outs=[("o", rng.choice(["{i:a|%s}.sib%d.txt" % (m, k), None]))]))
+        return sp
     if kind == 0:
         # fan-out of one out-port to several consumers, one of them a tagging component; tagged items feed further tasks
         a = sp.proc(t3.Proc("mk", kind="cattok", ins=[("a", [(s, "out")])], outs=[("o", "{i:a}.mk"), ("o2", "{i:a}.mk2")], cores=rng.randint(1, 2)))
@@ -54,8 +64,10 @@ def case(args):
     sc = t3.Scratch()
     try:
         sc.plant(sp.files)
-        impl = t3.run_impl(sc, sp, binary="wfrun_race", timeout=120, yield_seed=(rng.randint(1, 10**6), 200) if rng.random() < 0.5 else None,
-                           env={"GORACE": "halt_on_error=0 exitcode=66"})
+        # in half of the runs the hooks are inactive: their mutex would otherwise order the goroutines and hide races
+        quiet = rng.random() < 0.5
+        impl = t3.run_impl(sc, sp, binary="wfrun_race", timeout=120, yield_seed=(rng.randint(1, 10**6), 200) if (not quiet and rng.random() < 0.5) else None,
+                           env={"GORACE": "halt_on_error=0 exitcode=66"}, hooks_on=not quiet)
         problems = []
         if "DATA RACE" in impl["stderr"] or impl["rc"] == 66:
             i0 = impl["stderr"].find("WARNING: DATA RACE")
@@ -65,7 +77,7 @@ def case(args):
         elif impl["rc"] != 0:
             problems.append(("unexpected-failure", "rc=%s %s" % (impl["rc"], impl["stderr"][-300:])))
         return {"spec": sp.text(), "bufsize": sp.bufsize, "problems": problems, "ntasks": len(sp.nodes), "rc": impl["rc"], "stderr": impl["stderr"][-200:], "yield": None,
-                "wall": impl["wall"], "kind": ["fanout+tagging", "source-tagging+groupby", "fanin+multicore+params", "substream+streaming"][i % 4]}
+                "wall": impl["wall"], "kind": ["fanout+tagging", "source-tagging+groupby", "fanin+multicore+params", "substream+streaming", "siblings+modifiers"][i % 5] + ("/hooks-off" if quiet else "")}
     finally:
         sc.close()
 
@@ -76,12 +88,12 @@ def run(rep, tier, seed):
     bad = {k: m for k, (ok, m) in out.items() if not ok}
     if bad:
         raise RuntimeError("race build failed: %s" % str(bad)[-800:])
-    n = 24 if tier == "quick" else 400
+    n = 30 if tier == "quick" else 500
     results = t3.run_many(case, [(seed, i) for i in range(n)], workers=8)
     t3.report_t3(rep, MODULE, proved, results, "lock discipline on the regenerated skeletons / race-detector runs")
     rep.cov["evaluations"] = len(results)
     rep.cov["distinct_nontrivial"] = len({r["spec"] for r in results})
-    rep.cov["rule"] = "workflows built with `go build -race -tags verif`: fan-out of one out-port to several consumers incl. a tagging component (MapToTags) and sibling outputs, tagging on a shared source plus group-by-tag concatenation, fan-in with multi-core tasks and parameter feeders, sub-streams + streaming + chains; seeded delays at hook points in half of the runs; a DATA RACE report (exit 66) is a failing input; the race detector is search, not proof; every case is distinct and non-trivial"
+    rep.cov["rule"] = "workflows built with `go build -race -tags verif`: fan-out of one out-port to several consumers incl. a tagging component (MapToTags) and sibling outputs, tagging on a shared source plus group-by-tag concatenation, fan-in with multi-core tasks and parameter feeders, sub-streams + streaming + chains, sibling consumers whose output patterns use path modifiers / default names / parameter feeders; in half of the runs the hooks are inactive (they take no lock then, so they cannot hide a race), in a quarter seeded delays at the hook points; a DATA RACE report (exit 66) is a failing input; the race detector is search, not proof; every case is distinct and non-trivial"
     rep.cov["samples"] = [results[0]["spec"]]
     kinds = {}
     for r in results:
